@@ -10,7 +10,7 @@ EXPLANATION = ("Real memthick.measure_thickness_cpu / process_matches_cpu2cpu an
                "comparison forks the path; on each path the pairing is checked by SMT.")
 ASSUMPTIONS = ["1 (quick) / 2 (thorough) source points and 2 target points in [-20,20]^3, unit normals, voxel size in [0.1,5], max thickness in [0.5,30] nm, max angle in [1,30] degrees",
                "no two candidate pairs of exactly equal length (the greedy order would be ambiguous); surface labelling and direction enumerated"]
-OUTSIDE = ["the CUDA kernels (not executable here)", "more than 4 points; the 25-candidate cap", "rigid-motion invariance is argued from the formulas (all quantities are distances / inner products of differences with normals) and evaluated on concrete witnesses only",
+OUTSIDE = ["the CUDA kernels (not executable here)", "more than 4 SYMBOLIC points (h_dense adds 27 concrete neighbours around one symbolic target: the per-point candidate limit)", "rigid-motion invariance is argued from the formulas (all quantities are distances / inner products of differences with normals) and evaluated on concrete witnesses only",
            "float rounding (A0); float32 storage of the thickness"]
 WITNESS_ONLY = ['rigid-motion invariance of the pairing: evaluated on concrete witnesses only']
 BOUNDS = {"quick": {"sources": 1, "targets": 2}, "thorough": {"sources": 2, "targets": 2}}
@@ -157,6 +157,41 @@ def h_pairs(env, ns=1, nt=2, direction="1to2", labelling="first", mode="general"
     env.note("matched", sorted(matched.items()))
 
 
+def h_dense(env, n_lateral=27, angle=20.0):
+    """More than 25 ball neighbours, exactly one of them admissible and listed LAST: the per-point candidate limit of the
+    implementation must apply to admissible candidates, not to the raw neighbour list.  One concrete source at the origin
+    (normal +z), `n_lateral` concrete targets inside the ball but far outside the cone, one symbolic target inside cone and ball."""
+    mt = env.module("memthick")
+    pts, nrm = [[0.0, 0.0, 0.0]], [[0.0, 0.0, 1.0]]
+    for k in range(n_lateral):
+        r = 2.0 + 0.03125 * k                      # pairwise different distances (no ties), binary-exact
+        d = [(r, 0.0), (0.0, r), (-r, 0.0), (0.0, -r)][k % 4]
+        pts.append([d[0], d[1], 0.25])
+        nrm.append([0.0, 0.0, -1.0])
+    t = [env.real("t%s" % a, -6, 6) for a in "xyz"]
+    pts.append(t)
+    nrm.append([0.0, 0.0, -1.0])
+    n = len(pts)
+    voxel = env.real("voxel", 0.5, 2)
+    maxt = env.real("maxt", 0.5, 30)
+    env.assume(env.ge(maxt, 4 * voxel))             # all lateral targets (distance < 3) are inside the ball
+    s1 = [True] + [False] * (n - 1)
+    s2 = [not b for b in s1]
+    j = n - 1
+    d, dist2, proj, lat2 = _geom(env, pts, nrm, 0, j)
+    env.assume(env.and_(env.not_(env.eq(proj, 0.0)), _not_on_cone_boundary(env, angle, lat2, proj), env.not_(env.eq(dist2 * voxel * voxel, maxt * maxt))))
+    for k in range(1, n - 1):
+        env.assume(env.not_(env.eq(_geom(env, pts, nrm, 0, k)[1], dist2)))
+    P, Nm = _arr(env, pts), _arr(env, nrm)
+    thick, valid, pairs = mt.measure_thickness_cpu(P, Nm, np.array(s1, dtype=bool), np.array(s2, dtype=bool), voxel, max_thickness_nm=maxt, max_angle_degrees=angle, direction="1to2")
+    adm = _admissible(env, pts, nrm, 0, j, voxel, maxt, angle)
+    if bool(valid[0]):
+        env.check("dense_pair_is_the_admissible_target", env.and_(adm, env.true() if int(pairs[0]) == j else _false(env)))
+        env.check("dense_thickness", env.eq(thick[0] * thick[0], dist2 * voxel * voxel))
+    else:
+        env.check("dense_unmatched_implies_not_admissible", env.not_(adm))
+
+
 def h_kernel(env, ns=1, nt=2, mode="general", angle=None):
     """the numba candidate kernel (run from its Python source) finds the same candidates as the CPU loop's cone/range test"""
     mt = env.module("memthick")
@@ -191,7 +226,7 @@ def jobs(tier, seed):
          ("h_pairs", {"ns": 1, "nt": 2, "direction": "1to2", "labelling": "targets_first", "mode": "targets"}),
          ("h_kernel", {"ns": 1, "nt": 2, "mode": "targets"}),
          ("h_pairs", {"ns": 1, "nt": 2, "direction": "1to2", "mode": "targets", "angle": 30.0}), ("h_pairs", {"ns": 1, "nt": 2, "direction": "1to2", "mode": "targets", "angle": 3.0}),
-         ("h_kernel", {"ns": 1, "nt": 2, "mode": "targets", "angle": 20.0})]
+         ("h_kernel", {"ns": 1, "nt": 2, "mode": "targets", "angle": 20.0}), ("h_dense", {"n_lateral": 27, "angle": 20.0})]
     if tier == "thorough":
         j += [("h_pairs", {"ns": 2, "nt": 2, "direction": "1to2", "mode": "normals"}), ("h_kernel", {"ns": 1, "nt": 2, "mode": "normals"}),("h_pairs", {"ns": 1, "nt": 2, "direction": "1to2"}), ("h_pairs", {"ns": 2, "nt": 2, "direction": "1to2", "mode": "targets"}),("h_pairs", {"ns": 2, "nt": 2, "direction": "1to2"}), ("h_pairs", {"ns": 2, "nt": 2, "direction": "2to1", "labelling": "targets_first"}), ("h_kernel", {"ns": 2, "nt": 2})]
     return j
